@@ -51,20 +51,27 @@ def renderErrOK (src : List Char) (sp : Span) : Bool :=
     && (if sp.start.line = sp.stop.line then repeatSpanOK sp.stop.col sp.start.col else true)
     && padOK sp.start.col
 
-/-- The count of the multi-line marker: `len(lines[sl-1]) - int(sc) + 1`. -/
-def multiLineOK (src : List Char) (sl sc : Nat) : Bool :=
+/-- The count of the multi-line marker: `len(lines[sl-1]) - int(sc) + 1`; `bl k` is the length in
+bytes of line `k` (for valid UTF-8 the sum of the UTF-8 sizes of its runes, `byteLen`). -/
+def multiLineOKWith (bl : Nat → Nat) (src : List Char) (sl sc : Nat) : Bool :=
   match (splitLines src)[sl - 1]? with
-  | some line => nonneg (iadd (usub (byteLen line) sc) 1)
+  | some _ => nonneg (iadd (usub (bl (sl - 1)) sc) 1)
   | none => false
 
-/-- `diagnostic.Diagnostic.Display(program)` returns. -/
-def renderDiagOK (src : List Char) (sp : Span) : Bool :=
+/-- `diagnostic.Diagnostic.Display(program)` returns; byte lengths of the lines given by `bl`. -/
+def renderDiagOKWith (bl : Nat → Nat) (src : List Char) (sp : Span) : Bool :=
   if sp.start.line = 0 ∧ sp.start.col = 0 ∧ sp.stop.line = 0 ∧ sp.stop.col = 0 then true
   else
     linesOK (splitLines src).length sp.start.line
       && (if sp.start.line = sp.stop.line then
             (if sp.start.col = sp.stop.col then true else repeatSpanOK sp.stop.col sp.start.col)
-          else multiLineOK src sp.start.line sp.start.col)
+          else multiLineOKWith bl src sp.start.line sp.start.col)
       && padOK sp.start.col
+
+/-- Byte length of line `k` of a valid UTF-8 text. -/
+def lineBytes (src : List Char) (k : Nat) : Nat := byteLen ((splitLines src)[k]?.getD [])
+
+/-- `diagnostic.Diagnostic.Display(program)` returns (program text valid UTF-8). -/
+def renderDiagOK (src : List Char) (sp : Span) : Bool := renderDiagOKWith (lineBytes src) src sp
 
 end Hms.Pos
